@@ -138,7 +138,7 @@ SIZE_NAMES = ["nx_core", "nx_sol", "nx_pf", "nx_sol_inner", "nx_sol_outer", "ny_
               "ny_outer_lower_divertor", "ny_outer_upper_divertor", "ny_inner_sol", "ny_outer_sol"]
 
 
-def build(env, kind, guards, start_upper_outer=False):
+def build(env, kind, guards, start_upper_outer=False, capture=None):
     """kind in lsn usn cdn ldn udn. returns (eq, mesh, topo dict, sizes)"""
     eq = tok.TokamakEquilibrium.__new__(tok.TokamakEquilibrium)
     settings = {"y_boundary_guards": guards, "nx_inter_sep": 0 if kind in ("lsn", "usn", "cdn") else 1,
@@ -173,6 +173,8 @@ def build(env, kind, guards, start_upper_outer=False):
     eq.findLegs = lambda xp, **k: {"inner": [xp, Point2D(xp.R - 1, xp.Z)], "outer": [xp, Point2D(xp.R + 1, xp.Z)]}
 
     def seg2(segments):
+        if capture is not None:
+            capture["segments"] = segments
         out = {}
         for n, s in segments.items():
             s = dict(s)
